@@ -455,6 +455,25 @@ def h_iqpe(env, fam, k, m, ukind, canary=False):
                      f"iQPE[{fam},{ukind}] probability of the outcome string {''.join(outcome)} (energy {val}) for phase {m}/2^{k}")
         total = total + p
     env.check_eq(total, 1, "iQPE outcome probabilities sum to 1")
+    # several shots reuse ONE classical-control object: after finalize() a run must produce exactly the gates of a fresh object
+    import copy as _copy
+
+    def protocol(ctl, bits):
+        seq = [ctl.return_gates("0")]
+        for b_ in bits:
+            seq.append(ctl.return_gates(b_))
+        ctl.finalize()
+        return [(g.name, tuple(g.target), tuple(g.control or ()), g.parameter if isinstance(g.parameter, str) else round(float(g.parameter), 12))
+                for gs in seq for g in gs]
+    ctl0 = solver.circuit._cmeasure_control
+    for first in ("1" * k, "0" * k):
+        for outcome in itertools.product("01", repeat=k):
+            bits = "".join(outcome)
+            fresh = protocol(_copy.deepcopy(ctl0), bits)
+            used_ctl = _copy.deepcopy(ctl0)
+            protocol(used_ctl, first)
+            env.check_same(protocol(used_ctl, bits), fresh, f"iQPE control: run for outcomes {bits} after a finalized run with outcomes {first} == run of a fresh control object")
+            env.check_same(used_ctl.measurements[1], bits, "iQPE control: second run records its own measurements")
     # the dummy first measurement cannot give 1
     gates = generate_applied_gates(solver.circuit, desired_meas_result="1" + "0" * k)
     st = [R.ZERO() for _ in range(2 ** n)]
